@@ -64,7 +64,7 @@ class Effects:
         params = set(fn.param_names)
         return {k for k, v in fresh.items() if v and k not in params}
 
-    def _is_fresh_expr(self, e: Optional[ast.expr], fn: FunctionInfo) -> bool:
+    def _is_fresh_expr(self, e: Optional[ast.expr], fn: FunctionInfo, _depth: int = 0) -> bool:
         if isinstance(e, (ast.List, ast.Dict, ast.Set, ast.ListComp, ast.DictComp, ast.SetComp, ast.Tuple)):
             return True
         if isinstance(e, ast.Call):
@@ -76,6 +76,13 @@ class Effects:
                 return isinstance(tgt, ClassInfo)
             if isinstance(f, ast.Attribute) and f.attr == "copy":
                 return True
+            if isinstance(f, ast.Attribute) and f.attr.startswith("_") and not f.attr.startswith("__") and isinstance(f.value, ast.Name) \
+                    and f.value.id == fn.self_name and fn.cls is not None and _depth < 3:
+                # private factory helper: fresh when every return of it is a fresh expression
+                hs = fn.cls.resolve_all(f.attr)
+                if len(hs) == 1 and hs[0].kind in ("method", "staticmethod", "classmethod"):
+                    rets = [r for r in ast.walk(hs[0].node) if isinstance(r, ast.Return)]
+                    return bool(rets) and all(r.value is not None and self._is_fresh_expr(r.value, hs[0], _depth + 1) for r in rets)
             if isinstance(f, ast.Attribute):
                 # classmethod constructors:  Class.from_x(...) / Class.no_relation()
                 name = dotted(f.value)
@@ -160,8 +167,26 @@ class Effects:
                     name = a.value if isinstance(a, ast.Constant) and isinstance(a.value, str) else "<dynamic>"
                     kind, owner = self._classify(n.args[0], fn, env, fresh)
                     out.append(Write(fn, n, owner, name, kind, ast.unparse(n.args[0]), "setattr"))
+        if out and fn.kind == "method" and fn.name.startswith("_") and not fn.name.startswith("__") and self._only_called_on_fresh(fn):
+            # a private helper that is only ever invoked on an object its caller has just created initialises that object
+            out = [Write(w.fn, w.node, w.owner, w.attr, "fresh", w.receiver_src, w.how) if w.receiver == "self" else w for w in out]
         self._direct[fn] = out
         return out
+
+    def _only_called_on_fresh(self, fn: FunctionInfo) -> bool:
+        sites = 0
+        for g in self.model.all_functions():
+            if g is fn:
+                continue
+            fresh_g: Optional[Set[str]] = None
+            for n in ast.walk(g.node):
+                if isinstance(n, ast.Call) and isinstance(n.func, ast.Attribute) and n.func.attr == fn.name:
+                    sites += 1
+                    if fresh_g is None:
+                        fresh_g = self._fresh_names(g)
+                    if not (isinstance(n.func.value, ast.Name) and n.func.value.id in fresh_g):
+                        return False
+        return sites > 0
 
     def transitive_writes(self, roots: Iterable[FunctionInfo], stop=lambda f: False,
                           include_fresh: bool = False) -> List[Tuple[Write, List[FunctionInfo]]]:
